@@ -1111,4 +1111,389 @@ theorem litLoop_spec (srev : List Byte) (esc : Bool) (r : List Byte) (hinv : esc
         · simpa [litLoop, hq'] using h5
 
 
+/-! ### REAL: the shape of a real token, what `in2 >> d` makes of it, what it denotes -/
+/-- an optional sign as a list -/
+def IsSign (sg : List Byte) : Prop := sg = [] ∨ sg = [43] ∨ sg = [45]
+
+/-- rest that does not continue a run of digits -/
+def NoDigitHead (r : List Byte) : Prop := r = [] ∨ ∃ c t, r = c :: t ∧ isDigit c = false
+
+theorem takeDigits_run (ds r : List Byte) (hds : ds.all isDigit = true) (hr : NoDigitHead r) :
+    takeDigits (ds ++ r) = (ds, r) := by
+  induction ds with
+  | nil =>
+    rcases hr with rfl | ⟨c, t, rfl, hc⟩
+    · rfl
+    · simp [takeDigits, hc]
+  | cons a u ih =>
+    simp only [List.all_cons, Bool.and_eq_true] at hds
+    simp [takeDigits, hds.1, ih hds.2]
+
+theorem takeDigits_spec (r : List Byte) :
+    (takeDigits r).1.all isDigit = true ∧ NoDigitHead (takeDigits r).2 := by
+  induction r with
+  | nil => exact ⟨rfl, Or.inl rfl⟩
+  | cons c t ih =>
+    unfold takeDigits
+    by_cases h : isDigit c = true
+    · simp only [h, if_true]
+      exact ⟨by simp [h, ih.1], ih.2⟩
+    · have h' : isDigit c = false := by simpa using h
+      simp only [h', Bool.false_eq_true, if_false]
+      exact ⟨rfl, Or.inr ⟨c, t, rfl, h'⟩⟩
+
+theorem optSign_spec (r : List Byte) : IsSign (optSign r).1 := by
+  unfold optSign IsSign; split <;> simp
+
+theorem optSign_of_sign (sg r : List Byte) (hs : IsSign sg) (hr : ∀ t, r ≠ 43 :: t ∧ r ≠ 45 :: t) :
+    optSign (sg ++ r) = (sg, r) := by
+  rcases hs with rfl | rfl | rfl
+  · simp only [List.nil_append]
+    unfold optSign
+    split
+    · rename_i t; exact absurd rfl (hr t).1
+    · rename_i t; exact absurd rfl (hr t).2
+    · rfl
+  · rfl
+  · rfl
+
+theorem digit_head_not_sign (c : Byte) (u : List Byte) (hc : isDigit c = true) :
+    ∀ t, (c :: u) ≠ 43 :: t ∧ (c :: u) ≠ 45 :: t := by
+  intro t
+  simp [isDigit] at hc
+  constructor <;> (intro h; simp at h; bomega)
+
+/-! floatLoop step lemmas -/
+theorem floatLoop_digit1 (fm fd fs ae : Bool) (x l : List Byte) (d : Byte) (r : List Byte) (hd : isDigit d = true) :
+    floatLoop fm fd fs ae x l (d :: r) = floatLoop true fd fs false (d :: x) (d :: l) r := by
+  have hns : (d == 43 || d == 45) = false := by
+    simp [isDigit] at hd; simp; bomega
+  cases r <;> simp [floatLoop, hd, hns]
+
+theorem floatLoop_digits (fm fd fs ae : Bool) (x l : List Byte) (d : Byte) (ds r : List Byte)
+    (hd : isDigit d = true) (hds : ds.all isDigit = true) :
+    floatLoop fm fd fs ae x l (d :: ds ++ r) =
+      floatLoop true fd fs false ((d :: ds).reverse ++ x) ((d :: ds).reverse ++ l) r := by
+  induction ds generalizing fm ae x l d with
+  | nil => simp [floatLoop_digit1 _ _ _ _ _ _ _ _ hd]
+  | cons a u ih =>
+    simp only [List.all_cons, Bool.and_eq_true] at hds
+    have := ih true false (d :: x) (d :: l) a hds.1 hds.2
+    simp only [List.cons_append] at this ⊢
+    rw [floatLoop_digit1 _ _ _ _ _ _ _ _ hd, this]; simp
+
+theorem floatLoop_digits' (fm fd fs : Bool) (x l : List Byte) (ds r : List Byte) (hds : ds.all isDigit = true) :
+    floatLoop fm fd fs false x l (ds ++ r) =
+      floatLoop (fm || !ds.isEmpty) fd fs false (ds.reverse ++ x) (ds.reverse ++ l) r := by
+  cases ds with
+  | nil => simp
+  | cons d u =>
+    simp only [List.all_cons, Bool.and_eq_true] at hds
+    rw [floatLoop_digits fm fd fs false x l d u r hds.1 hds.2]; simp
+
+theorem floatLoop_dot (fm : Bool) (x l r : List Byte) :
+    floatLoop fm false false false x l (46 :: r) = floatLoop fm true false false (46 :: x) (46 :: l) r := by
+  simp [floatLoop, isDigit]
+
+theorem floatLoop_exp (fd : Bool) (x l r : List Byte) (c : Byte) (hc : c = 69 ∨ c = 101) :
+    floatLoop true fd false false x l (c :: r) = floatLoop true fd true true (101 :: x) (c :: l) r := by
+  rcases hc with rfl | rfl <;> simp [floatLoop, isDigit]
+
+theorem floatLoop_sign (fm fd fs : Bool) (x l r : List Byte) (c : Byte) (hc : c = 43 ∨ c = 45) :
+    floatLoop fm fd fs true x l (c :: r) = floatLoop fm fd fs false (c :: x) (c :: l) r := by
+  rcases hc with rfl | rfl <;> simp [floatLoop]
+
+/-- after the exponent letter: optional sign, then digits, then the end -/
+theorem floatLoop_exp_tail (fm fd : Bool) (x l : List Byte) (esg ed : List Byte) (hs : IsSign esg) (hne : ed ≠ [])
+    (hed : ed.all isDigit = true) :
+    floatLoop fm fd true true x l (esg ++ ed) = ((esg ++ ed).reverse ++ x, (esg ++ ed).reverse ++ l, []) := by
+  have hdig : ∀ (ae : Bool) (x l : List Byte), floatLoop fm fd true ae x l ed = (ed.reverse ++ x, ed.reverse ++ l, []) := by
+    intro ae x l
+    cases ed with
+    | nil => exact absurd rfl hne
+    | cons d u =>
+      simp only [List.all_cons, Bool.and_eq_true] at hed
+      have := floatLoop_digits fm fd true ae x l d u [] hed.1 hed.2
+      simp only [List.append_nil] at this
+      rw [this]; simp [floatLoop]
+  rcases hs with rfl | rfl | rfl
+  · simpa using hdig true x l
+  · rw [List.singleton_append, floatLoop_sign _ _ _ _ _ _ 43 (Or.inl rfl), hdig]; simp
+  · rw [List.singleton_append, floatLoop_sign _ _ _ _ _ _ 45 (Or.inr rfl), hdig]; simp
+
+/-! the shape of a real token -/
+def exText (el : Byte) : Option (List Byte × List Byte) → List Byte
+  | none => []
+  | some (esg, ed) => el :: (esg ++ ed)
+
+def exVal : Option (List Byte × List Byte) → Int
+  | none => 0
+  | some (esg, ed) => if esg == [45] then -((digitsVal ed 0 : Nat) : Int) else ((digitsVal ed 0 : Nat) : Int)
+
+def ExWF : Option (List Byte × List Byte) → Prop
+  | none => True
+  | some (esg, ed) => IsSign esg ∧ ed ≠ [] ∧ ed.all isDigit = true
+
+def realText (sg ip fp : List Byte) (el : Byte) (ex : Option (List Byte × List Byte)) : List Byte :=
+  sg ++ (ip ++ 46 :: (fp ++ exText el ex))
+
+theorem dot_noDigit (r : List Byte) : NoDigitHead (46 :: r) := Or.inr ⟨46, r, rfl, by decide⟩
+
+theorem exText_noDigit (el : Byte) (hel : el = 69 ∨ el = 101) (ex : Option (List Byte × List Byte)) :
+    NoDigitHead (exText el ex) := by
+  cases ex with
+  | none => exact Or.inl rfl
+  | some p => exact Or.inr ⟨el, p.1 ++ p.2, rfl, by rcases hel with rfl | rfl <;> decide⟩
+
+/-- P1: the decimal a text of the real shape denotes -/
+theorem parse_realText (sg ip fp : List Byte) (el : Byte) (ex : Option (List Byte × List Byte))
+    (hsg : IsSign sg) (hip1 : ip ≠ []) (hip : ip.all isDigit = true) (hfp : fp.all isDigit = true)
+    (hel : el = 69 ∨ el = 101) (hex : ExWF ex) :
+    parseFloatText (realText sg ip fp el ex) =
+      some ⟨sg == [45], digitsVal (ip ++ fp) 0, exVal ex - (fp.length : Int)⟩ := by
+  obtain ⟨d, u, rfl⟩ : ∃ d u, ip = d :: u := by
+    cases ip with
+    | nil => exact absurd rfl hip1
+    | cons d u => exact ⟨d, u, rfl⟩
+  have hd : isDigit d = true := by simp at hip; exact hip.1
+  have h1 : optSign (realText sg (d :: u) fp el ex) = (sg, (d :: u) ++ 46 :: (fp ++ exText el ex)) := by
+    unfold realText
+    exact optSign_of_sign sg _ hsg (by simpa using digit_head_not_sign d _ hd)
+  have h2 : takeDigits ((d :: u) ++ 46 :: (fp ++ exText el ex)) = (d :: u, 46 :: (fp ++ exText el ex)) :=
+    takeDigits_run _ _ hip (dot_noDigit _)
+  have h3 : takeDigits (fp ++ exText el ex) = (fp, exText el ex) := takeDigits_run _ _ hfp (exText_noDigit el hel ex)
+  unfold parseFloatText
+  simp only [h1, h2, optDot, h3, List.isEmpty_cons, Bool.false_eq_true, if_false, Bool.false_and]
+  cases ex with
+  | none => simp [exText, exVal]
+  | some p =>
+    obtain ⟨esg, ed⟩ := p
+    obtain ⟨hes, hed1, hed⟩ := hex
+    obtain ⟨e0, eu, rfl⟩ : ∃ e0 eu, ed = e0 :: eu := by
+      cases ed with
+      | nil => exact absurd rfl hed1
+      | cons e0 eu => exact ⟨e0, eu, rfl⟩
+    have he0 : isDigit e0 = true := by simp at hed; exact hed.1
+    have h4 : optSign (esg ++ (e0 :: eu)) = (esg, e0 :: eu) :=
+      optSign_of_sign esg _ hes (by simpa using digit_head_not_sign e0 eu he0)
+    have h5 : takeDigits (e0 :: eu) = (e0 :: eu, []) := by
+      simpa using takeDigits_run (e0 :: eu) [] hed (Or.inl rfl)
+    have hel' : (el == 101 || el == 69) = true := by rcases hel with rfl | rfl <;> decide
+    simp [exText, exVal, hel', h4, h5]
+
+theorem zeros_split (ip : List Byte) :
+    ∃ zs ds, ip = zs ++ ds ∧ zs.all (· == 48) = true ∧ (ds = [] ∨ ∃ c t, ds = c :: t ∧ c ≠ 48) := by
+  induction ip with
+  | nil => exact ⟨[], [], rfl, rfl, Or.inl rfl⟩
+  | cons a u ih =>
+    by_cases ha : a = 48
+    · obtain ⟨zs, ds, h1, h2, h3⟩ := ih
+      exact ⟨a :: zs, ds, by simp [h1], by simp [ha, h2], h3⟩
+    · exact ⟨[], a :: u, rfl, rfl, Or.inr ⟨a, u, rfl, ha⟩⟩
+
+theorem dropZeros_run (f : Bool) (l zs r : List Byte) (hz : zs.all (· == 48) = true)
+    (hr : r = [] ∨ ∃ c t, r = c :: t ∧ c ≠ 48) :
+    dropZeros f l (zs ++ r) = (f || !zs.isEmpty, zs.reverse ++ l, r) := by
+  induction zs generalizing f l with
+  | nil =>
+    rcases hr with rfl | ⟨c, t, rfl, hc⟩
+    · simp [dropZeros]
+    · have : (c == 48) = false := by simpa using hc
+      simp [dropZeros, this]
+  | cons a u ih =>
+    simp only [List.all_cons, Bool.and_eq_true, beq_iff_eq] at hz
+    obtain ⟨rfl, hu⟩ := hz
+    simp [dropZeros, ih true (48 :: l) hu]
+
+theorem digitsVal_zeros (zs r : List Byte) (hz : zs.all (· == 48) = true) : digitsVal (zs ++ r) 0 = digitsVal r 0 := by
+  induction zs with
+  | nil => rfl
+  | cons a u ih =>
+    simp only [List.all_cons, Bool.and_eq_true, beq_iff_eq] at hz
+    obtain ⟨rfl, hu⟩ := hz
+    simp [digitsVal, ih hu]
+
+/-- P3: what `in2 >> d` hands to `strtod` for a buffer of the real shape denotes the same decimal as the buffer -/
+theorem parse_scanFloat_realText (sg ip fp : List Byte) (el : Byte) (ex : Option (List Byte × List Byte))
+    (hsg : IsSign sg) (hip1 : ip ≠ []) (hip : ip.all isDigit = true) (hfp : fp.all isDigit = true)
+    (hel : el = 69 ∨ el = 101) (hex : ExWF ex) :
+    parseFloatText (scanFloat [] (realText sg ip fp el ex)).1 =
+      some ⟨sg == [45], digitsVal (ip ++ fp) 0, exVal ex - (fp.length : Int)⟩ := by
+  obtain ⟨zs, ds, rfl, hz, hds0⟩ := zeros_split ip
+  have hzd : zs.all isDigit = true := by
+    apply List.all_eq_true.mpr; intro b hb
+    have := List.all_eq_true.mp hz b hb
+    simp at this; subst this; decide
+  have hdsd : ds.all isDigit = true := by
+    simp only [List.all_append, Bool.and_eq_true] at hip; exact hip.2
+  -- the collapsed integer part
+  let ipc : List Byte := (if zs.isEmpty then [] else [48]) ++ ds
+  have hipc1 : ipc ≠ [] := by
+    simp only [ipc]
+    cases zs with
+    | nil => simpa using hip1
+    | cons a u => simp
+  have hipcd : ipc.all isDigit = true := by
+    simp only [ipc]
+    cases zs <;> simp [hdsd, isDigit]
+  have hval : digitsVal (ipc ++ fp) 0 = digitsVal ((zs ++ ds) ++ fp) 0 := by
+    simp only [ipc, List.append_assoc]
+    rw [digitsVal_zeros zs _ hz]
+    cases zs with
+    | nil => simp
+    | cons a u => simpa using digitsVal_zeros [48] (ds ++ fp) rfl
+  -- the scan
+  have hscan : (scanFloat [] (realText sg (zs ++ ds) fp el ex)).1 = realText sg ipc fp 101 ex := by
+    have hrest : (ds ++ 46 :: (fp ++ exText el ex)) = [] ∨ ∃ c t, (ds ++ 46 :: (fp ++ exText el ex)) = c :: t ∧ c ≠ 48 := by
+      rcases hds0 with rfl | ⟨c, t, rfl, hc⟩
+      · exact Or.inr ⟨46, _, rfl, by decide⟩
+      · exact Or.inr ⟨c, _, rfl, hc⟩
+    have hdz : ∀ l, dropZeros false l (zs ++ (ds ++ 46 :: (fp ++ exText el ex))) =
+        (!zs.isEmpty, zs.reverse ++ l, ds ++ 46 :: (fp ++ exText el ex)) := by
+      intro l; simpa using dropZeros_run false l zs _ hz hrest
+    have hfm : (!zs.isEmpty || !ds.isEmpty) = true := by
+      cases zs <;> cases ds <;> simp_all
+    have hloop : ∀ x l, floatLoop (!zs.isEmpty) false false false x l (ds ++ 46 :: (fp ++ exText el ex)) =
+        ((exText 101 ex).reverse ++ (fp.reverse ++ (46 :: (ds.reverse ++ x))),
+         (exText el ex).reverse ++ (fp.reverse ++ (46 :: (ds.reverse ++ l))), []) := by
+      intro x l
+      rw [floatLoop_digits' _ _ _ _ _ _ _ hdsd, hfm, floatLoop_dot, floatLoop_digits' _ _ _ _ _ _ _ hfp]
+      cases ex with
+      | none => simp [exText, floatLoop]
+      | some p =>
+        obtain ⟨esg, ed⟩ := p
+        obtain ⟨hes, hed1, hed⟩ := hex
+        simp only [exText, Bool.true_or]
+        rw [floatLoop_exp _ _ _ _ el hel, floatLoop_exp_tail _ _ _ _ esg ed hes hed1 hed]
+        simp
+    have hsgn : ∀ t, (zs ++ (ds ++ 46 :: (fp ++ exText el ex))) ≠ 43 :: t ∧ (zs ++ (ds ++ 46 :: (fp ++ exText el ex))) ≠ 45 :: t := by
+      intro t
+      cases zs with
+      | nil =>
+        cases ds with
+        | nil => exact absurd rfl hip1
+        | cons d u => simp at hdsd; simpa using digit_head_not_sign d _ hdsd.1 t
+      | cons a u => simp at hzd; simpa using digit_head_not_sign a _ hzd.1 t
+    unfold scanFloat realText
+    rcases hsg with rfl | rfl | rfl
+    · simp only [List.nil_append, List.append_assoc]
+      split
+      · rename_i r heq; exact absurd heq (hsgn r).2
+      · rename_i r heq; exact absurd heq (hsgn r).1
+      · simp only [hdz, hloop, ipc]
+        cases zs <;> simp [realText]
+    · simp only [List.singleton_append, List.append_assoc, hdz, hloop, ipc]
+      cases zs <;> simp [realText]
+    · simp only [List.singleton_append, List.append_assoc, hdz, hloop, ipc]
+      cases zs <;> simp [realText]
+  rw [hscan, parse_realText sg ipc fp 101 ex hsg hipc1 hipcd hfp (Or.inr rfl) hex, hval]
+
+theorem optDot_cases (r : List Byte) : ((optDot r).1 = [46] ∧ r = 46 :: (optDot r).2) ∨ ((optDot r).1 = [] ∧ (optDot r).2 = r) := by
+  unfold optDot; split <;> simp
+
+theorem expPart_cases (r : List Byte) :
+    ((expPart r).1 = [] ∧ (expPart r).2.2.1 = false ∧ (expPart r).2.2.2 = false) ∨
+    (∃ c t, r = c :: t ∧ (c = 101 ∨ c = 69) ∧ (expPart r).1 = c :: ((optSign t).1 ++ (takeDigits (optSign t).2).1) ∧
+      (expPart r).2.2.1 = (c == 101) ∧ (expPart r).2.2.2 = (takeDigits (optSign t).2).1.isEmpty) := by
+  unfold expPart
+  split
+  · rename_i c t
+    by_cases h : (c == 101 || c == 69) = true
+    · right
+      refine ⟨c, t, rfl, by simpa using h, ?_⟩
+      simp [h, realDigits]
+    · have h' : (c == 101 || c == 69) = false := by simpa using h
+      left; simp [h']
+  · left; simp
+
+theorem sev4 (a b c d : Bool)
+    (h : (if d then Sev.warning else if c then Sev.warning else if b then Sev.warning else if a then Sev.warning else Sev.null) = Sev.null) :
+    a = false ∧ b = false ∧ c = false ∧ d = false := by
+  cases a <;> cases b <;> cases c <;> cases d <;> simp at h ⊢
+
+/-- S4: when `ReadReal` collected its characters without a format complaint, the buffer has the shape of the grammar -/
+theorem realCollect_null (r : List Byte) (h : (realCollect r).2.2 = Sev.null) :
+    ∃ sg ip fp ex, (realCollect r).1 = realText sg ip fp 69 ex ∧ IsSign sg ∧ ip ≠ [] ∧ ip.all isDigit = true ∧
+      fp.all isDigit = true ∧ ExWF ex := by
+  simp only [realCollect, realDigits] at h ⊢
+  obtain ⟨c1', c2', c3', c4'⟩ := sev4 _ _ _ _ h
+  have hsg := optSign_spec r
+  have hipd := (takeDigits_spec (optSign r).2).1
+  have hdot := optDot_cases (takeDigits (optSign r).2).2
+  have hfpd := (takeDigits_spec (optDot (takeDigits (optSign r).2).2).2).1
+  have hex := expPart_cases (takeDigits (optDot (takeDigits (optSign r).2).2).2).2
+  have hd46 : (optDot (takeDigits (optSign r).2).2).1 = [46] := by
+    rcases hdot with ⟨hd, _⟩ | ⟨hd, _⟩
+    · exact hd
+    · rw [hd] at c2'; simp at c2'
+  have hipne : (takeDigits (optSign r).2).1 ≠ [] := by intro e; rw [e] at c1'; simp at c1'
+  rcases hex with ⟨he1, _, _⟩ | ⟨c, t, hrt, hc, he1, he2, he3⟩
+  · refine ⟨(optSign r).1, (takeDigits (optSign r).2).1, (takeDigits (optDot (takeDigits (optSign r).2).2).2).1, none, ?_, hsg, hipne, hipd, hfpd, trivial⟩
+    simp [realText, exText, hd46, he1]
+  · rw [he2] at c3'
+    have hc69 : c = 69 := by
+      rcases hc with rfl | rfl
+      · simp at c3'
+      · rfl
+    subst hc69
+    rw [he3] at c4'
+    refine ⟨(optSign r).1, (takeDigits (optSign r).2).1, (takeDigits (optDot (takeDigits (optSign r).2).2).2).1,
+      some ((optSign t).1, (takeDigits (optSign t).2).1), ?_, hsg, hipne, hipd, hfpd, ?_⟩
+    · simp [realText, exText, hd46, he1]
+    · exact ⟨optSign_spec t, by intro e; rw [e] at c4'; simp at c4', (takeDigits_spec (optSign t).2).1⟩
+
+theorem splitSign_of_sign (sg r : List Byte) (hs : IsSign sg) (hr : ∀ t, r ≠ 43 :: t ∧ r ≠ 45 :: t) :
+    splitSign (sg ++ r) = (sg == [45], r) := by
+  rcases hs with rfl | rfl | rfl
+  · simp only [List.nil_append]
+    unfold splitSign
+    split
+    · rename_i t; exact absurd rfl (hr t).2
+    · rename_i t; exact absurd rfl (hr t).1
+    · rfl
+  · rfl
+  · rfl
+
+/-- S6: a text of the real shape with an upper-case `E` is a token of the grammar -/
+theorem isReal_realText (sg ip fp : List Byte) (ex : Option (List Byte × List Byte))
+    (hsg : IsSign sg) (hip1 : ip ≠ []) (hip : ip.all isDigit = true) (hfp : fp.all isDigit = true) (hex : ExWF ex) :
+    isReal (realText sg ip fp 69 ex) = true := by
+  obtain ⟨d, u, rfl⟩ : ∃ d u, ip = d :: u := by
+    cases ip with
+    | nil => exact absurd rfl hip1
+    | cons d u => exact ⟨d, u, rfl⟩
+  have hd : isDigit d = true := by simp at hip; exact hip.1
+  have h1 : splitSign (realText sg (d :: u) fp 69 ex) = (sg == [45], (d :: u) ++ 46 :: (fp ++ exText 69 ex)) := by
+    unfold realText
+    exact splitSign_of_sign sg _ hsg (by simpa using digit_head_not_sign d _ hd)
+  have h2 : takeDigits ((d :: u) ++ 46 :: (fp ++ exText 69 ex)) = (d :: u, 46 :: (fp ++ exText 69 ex)) :=
+    takeDigits_run _ _ hip (dot_noDigit _)
+  have h3 : takeDigits (fp ++ exText 69 ex) = (fp, exText 69 ex) := takeDigits_run _ _ hfp (exText_noDigit 69 (Or.inl rfl) ex)
+  unfold isReal
+  simp only [h1, h2, h3, List.isEmpty_cons, Bool.false_eq_true, if_false]
+  cases ex with
+  | none => simp [exText]
+  | some p =>
+    obtain ⟨esg, ed⟩ := p
+    obtain ⟨hes, hed1, hed⟩ := hex
+    obtain ⟨e0, eu, rfl⟩ : ∃ e0 eu, ed = e0 :: eu := by
+      cases ed with
+      | nil => exact absurd rfl hed1
+      | cons e0 eu => exact ⟨e0, eu, rfl⟩
+    have he0 : isDigit e0 = true := by simp at hed; exact hed.1
+    have h4 : splitSign (esg ++ (e0 :: eu)) = (esg == [45], e0 :: eu) :=
+      splitSign_of_sign esg _ hes (by simpa using digit_head_not_sign e0 eu he0)
+    simp only [exText, h4, allDigits]
+    simpa using hed
+
+theorem realCollect_sev (r : List Byte) : (realCollect r).2.2 = Sev.null ∨ (realCollect r).2.2 = Sev.warning := by
+  simp only [realCollect]
+  split <;> (try split) <;> (try split) <;> (try split) <;> simp
+
+theorem null_greater_noerr (e : Sev) (h : NoErr (Sev.null.greater e)) (he : e = Sev.null ∨ e = Sev.warning) : e = Sev.null := by
+  rcases he with rfl | rfl
+  · rfl
+  · exact absurd h (by simp [NoErr, Sev.greater, Sev.toInt])
+
+
 end StepModel.P21.Lemmas
